@@ -229,7 +229,10 @@ fn batch_main() -> i32 {
                 if job["scopecheck"].as_bool().unwrap_or(false) {
                     let content = o["ok"]["content"].as_str().unwrap_or("").to_string();
                     if !content.is_empty() {
-                        o["scope"] = match std::panic::catch_unwind(|| scope::scope_check(&content, &cfg.local_var_prefix)) {
+                        // (the configuration type of the code under test may hold interior mutability: only a copy of
+                        // the prefix crosses the unwind boundary)
+                        let pfx = cfg.local_var_prefix.clone();
+                        o["scope"] = match std::panic::catch_unwind(std::panic::AssertUnwindSafe(|| scope::scope_check(&content, &pfx))) {
                             Ok(Ok((f, uses, lets))) => serde_json::json!({"findings": f.iter().map(|x| serde_json::json!({"key": x.key, "detail": x.detail})).collect::<Vec<_>>(), "uses": uses, "lets": lets}),
                             Ok(Err(e)) => serde_json::json!({"parse_error": e}),
                             Err(_) => serde_json::json!({"parse_error": "harness parser panicked"}),
